@@ -1,0 +1,21 @@
+//go:build verif
+
+// Contracts for contract-based deductive verification (see /verif/DESIGN.md).
+// Comment-only file: it contributes no code to any build.
+
+package encoding
+
+// ---------------------------------------------------------------- C12: size gate
+//@ func validateMessageSize
+//@   props C12
+//@   nopanic
+//@   modifies nothing
+//@   ensures (result == nil) == (max == 0 || target <= max)
+
+// a frame above the configured maximum is rejected before it is handed to the decoder
+//@ func (*Transport).Read
+//@   props C12
+//@   ghostvar n int = 0
+//@   after call ReadWriter).Read: n = len(res0)
+//@   assert call DecodeFrom: c.maxMessageSize == 0 || n <= c.maxMessageSize
+//@   ensures imp(result1 == nil, c.maxMessageSize == 0 || n <= c.maxMessageSize)
